@@ -238,6 +238,8 @@ func (r *replication) replicate(c *conn, req *appendReq) error {
 				}
 				if err != nil {
 					_ = c.rwc.Close()
+					for range resultCh { // the writer may still be using c.rwc
+					}
 					c.rwc = nil // to signal runLoop that we closed the conn
 				}
 			case <-time.After(timeout):
@@ -248,6 +250,8 @@ func (r *replication) replicate(c *conn, req *appendReq) error {
 				<-drained
 				if trace {
 					println(r, "drain completed")
+				}
+				for range resultCh { // the writer may still be using c.rwc
 				}
 				c.rwc = nil // to signal runLoop that we closed the conn
 			}
